@@ -70,6 +70,7 @@ def gen_grid(rng, S):
         xs = [float(i) for i in range(nx)] if defx else gen.axis_f(rng, nx, rng.choice(["uniform", "geometric", "random", "ulps", "evenish", "even"]))
         ys = [float(i) for i in range(ny)] if defy else gen.axis_f(rng, ny, rng.choice(["uniform", "geometric", "random", "log", "evenish"]))
         flat = [rng.uniform(-1, 1) * 10.0 ** rng.randint(-3, 5) for _ in range(gen.shape_size(shape))]
+    flat = gen.structured_grid(rng, nx, ny, gen.lanes_of(shape, 2), flat)
     return shape, defx, defy, xs, ys, flat
 
 
